@@ -56,6 +56,18 @@ type pair struct {
 	big       bool
 }
 
+//go:norace
+func (p *pair) retain(q pk.Packet) { p.got = append(p.got, q) }
+
+type forgedState struct {
+	err      error
+	returned bool
+	got      pk.Packet
+}
+
+//go:norace
+func (f *forgedState) set(p pk.Packet, err error) { f.got, f.err, f.returned = p, err, true }
+
 func drawPair(tp *tape.Tape, name string, tag int, maxPkts int) *pair {
 	p := &pair{name: name}
 	p.threshold = gen.Threshold(tp, true)
@@ -192,7 +204,7 @@ func scenarioStream(c *harness.Ctx) {
 					}
 					prevLen = len(s.data)
 					if p.recvMode == 1 {
-						p.got = append(p.got, *q)
+						p.retain(*q)
 					}
 				}
 				// exactly-one-frame consumption: the trailer must still be there
@@ -322,9 +334,7 @@ func scenarioForged(c *harness.Ctx) {
 	c.Config["kind"] = kind
 	c.Config["threshold"] = threshold
 	c.Config["desc"] = desc
-	var gotErr error
-	var returned bool
-	var got pk.Packet
+	st := &forgedState{}
 	out, w := c.World(func(w *kernel.World) {
 		link := simnet.Pipe(w, "forged", cfg, coarse())
 		w.Go("byzantine", func() {
@@ -333,17 +343,20 @@ func scenarioForged(c *harness.Ctx) {
 			link.A.Write(bytes.Repeat([]byte{0}, 256))
 		})
 		w.Go("victim", func() {
+			var got pk.Packet
+			var err error
 			if useConn {
 				conn := mcnet.WrapConn(link.B)
 				conn.SetThreshold(threshold)
-				gotErr = conn.ReadPacket(&got)
+				err = conn.ReadPacket(&got)
 			} else {
-				gotErr = got.UnPack(link.B, threshold)
+				err = got.UnPack(link.B, threshold)
 			}
-			returned = true
+			st.set(got, err)
 			w.RequestStop()
 		})
 	})
+	gotErr, returned, got := st.err, st.returned, st.got
 	if c.Infra != "" {
 		return
 	}
